@@ -127,6 +127,9 @@ func checkC14(ctx *core.Ctx, rep *core.Report) {
 		}
 		rep.Sample(2, map[string]interface{}{"seed": st.Seed.Name, "path": st.Path})
 	})
+	if ctx.Shard == 0 {
+		c14WriteJSONAcrossKinds(rep) // last: it adds lints to this process's global registry
+	}
 }
 
 // c14Retention: all sequences of ≤ 3 direct encodings (LintStatus.MarshalJSON, LintSource.MarshalJSON,
@@ -334,51 +337,93 @@ func c14Details(rep *core.Report) {
 
 func c14WriteJSON(rep *core.Report) {
 	for _, nr := range RegistryFamily() {
-		var buf bytes.Buffer
-		nr.Reg.WriteJSON(&buf)
-		want := map[string]lintDesc{}
-		for _, d := range snapshotRegistry(nr.Reg) {
-			want[d.Name] = d
+		c14WriteJSONOne(rep, nr.Name, nr.Reg)
+	}
+}
+
+// c14WriteJSONOne: the listing as a multiset of (name, description, citation, source) lines equals the
+// multiset of the lints the registry lists per kind.
+func c14WriteJSONOne(rep *core.Report, regName string, reg lint.Registry) {
+	var buf bytes.Buffer
+	reg.WriteJSON(&buf)
+	tuple := func(n, d, c string, s lint.LintSource) string {
+		return n + "\x00" + d + "\x00" + c + "\x00" + string(s)
+	}
+	want := map[string]int{}
+	names := map[string]bool{}
+	total := 0
+	for _, d := range snapshotRegistry(reg) {
+		want[tuple(d.Name, d.Meta.Description, d.Meta.Citation, d.Meta.Source)]++
+		names[d.Name] = true
+		total++
+	}
+	art := map[string]interface{}{"op": "writejson", "registry": regName}
+	lines := strings.Split(strings.TrimRight(buf.String(), "\n"), "\n")
+	if buf.Len() == 0 {
+		lines = nil
+	}
+	got := map[string]int{}
+	rep.Inc("states")
+	for _, ln := range lines {
+		rep.Inc("transitions")
+		rep.Inc("validated")
+		var m struct {
+			Name        string          `json:"name"`
+			Description string          `json:"description"`
+			Citation    string          `json:"citation"`
+			Source      lint.LintSource `json:"source"`
 		}
-		art := map[string]interface{}{"op": "writejson", "registry": nr.Name}
-		lines := strings.Split(strings.TrimRight(buf.String(), "\n"), "\n")
-		if buf.Len() == 0 {
-			lines = nil
+		if err := json.Unmarshal([]byte(ln), &m); err != nil {
+			rep.Violate("C14|writejson_undecodable", fmt.Sprintf("registry %s: line does not decode (%v): %.120s", regName, err, ln), art)
+			continue
 		}
-		seen := map[string]int{}
-		rep.Inc("states")
-		for _, ln := range lines {
-			rep.Inc("transitions")
-			rep.Inc("validated")
-			var m struct {
-				Name        string          `json:"name"`
-				Description string          `json:"description"`
-				Citation    string          `json:"citation"`
-				Source      lint.LintSource `json:"source"`
-			}
-			if err := json.Unmarshal([]byte(ln), &m); err != nil {
-				rep.Violate("C14|writejson_undecodable", fmt.Sprintf("registry %s: line does not decode (%v): %.120s", nr.Name, err, ln), art)
-				continue
-			}
-			seen[m.Name]++
-			d, ok := want[m.Name]
-			if !ok {
-				rep.Violate("C14|writejson_extra", "registry "+nr.Name+": line for unregistered lint "+m.Name, art)
-				continue
-			}
-			if m.Description != d.Meta.Description || m.Citation != d.Meta.Citation || m.Source != d.Meta.Source {
-				rep.Violate("C14|writejson_fields", "registry "+nr.Name+": line of "+m.Name+" does not decode to its name, description, citation and source", art)
-			}
+		if !names[m.Name] {
+			rep.Violate("C14|writejson_extra", "registry "+regName+": line for unregistered lint "+m.Name, art)
+			continue
 		}
-		for n := range want {
-			if seen[n] != 1 {
-				rep.Violate("C14|writejson_line_count", fmt.Sprintf("registry %s: %d lines for registered lint %s", nr.Name, seen[n], n), art)
-			}
-		}
-		if len(lines) != len(want) {
-			rep.Violate("C14|writejson_line_count", fmt.Sprintf("registry %s: %d lines for %d lints", nr.Name, len(lines), len(want)), art)
+		t := tuple(m.Name, m.Description, m.Citation, m.Source)
+		got[t]++
+		if want[t] == 0 {
+			rep.Violate("C14|writejson_fields", "registry "+regName+": a line of "+m.Name+" does not decode to the name, description, citation and source of a registered lint", art)
 		}
 	}
+	for t, n := range want {
+		if got[t] != n {
+			rep.Violate("C14|writejson_line_count", fmt.Sprintf("registry %s: %d lines for registered lint %s (%d registered under that description)", regName, got[t], strings.SplitN(t, "\x00", 2)[0], n), art)
+		}
+	}
+	if len(lines) != total {
+		rep.Violate("C14|writejson_line_count", fmt.Sprintf("registry %s: %d lines for %d lints", regName, len(lines), total), art)
+	}
+}
+
+// c14WriteJSONAcrossKinds runs LAST in its process: it registers, through the public API, three mock
+// lints that share one name across the certificate, CRL and OCSP tables (uniqueness is enforced per
+// kind only) with distinct descriptions, citations and sources; the listing of the global registry and of
+// filtered registries must still carry one line per registered lint, each with that lint's own fields.
+func c14WriteJSONAcrossKinds(rep *core.Report) {
+	const name = "n_zz_verif_same_name"
+	defer func() {
+		if r := recover(); r != nil {
+			rep.Note("cross-kind registration of one name is refused in this tree (%v): nothing to list", r)
+		}
+	}()
+	lint.RegisterCertificateLint(&lint.CertificateLint{LintMetadata: lint.LintMetadata{Name: name, Description: "mock certificate lint", Citation: "cert §1", Source: lint.Community},
+		Lint: func() lint.CertificateLintInterface { return mockCert{lint.Pass} }})
+	lint.RegisterRevocationListLint(&lint.RevocationListLint{LintMetadata: lint.LintMetadata{Name: name, Description: "mock CRL lint", Citation: "crl §2", Source: lint.RFC5280},
+		Lint: func() lint.RevocationListLintInterface { return mockCRL{lint.Pass} }})
+	lint.RegisterOcspResponseLint(&lint.OcspResponseLint{LintMetadata: lint.LintMetadata{Name: name, Description: "mock OCSP lint", Citation: "ocsp §3", Source: lint.RFC6960},
+		Lint: func() lint.OcspResponseLintInterface { return mockOCSP{lint.Pass} }})
+	g := lint.GlobalRegistry()
+	c14WriteJSONOne(rep, "global+same-name-mocks", g)
+	for _, o := range []lint.FilterOptions{{IncludeNames: []string{name}}, {IncludeSources: lint.SourceList{lint.RFC5280, lint.RFC6960}}, {ExcludeSources: lint.SourceList{lint.Community}}} {
+		if r, err := g.Filter(o); err == nil {
+			c14WriteJSONOne(rep, fmt.Sprintf("filtered%v+same-name-mocks", o.IncludeNames), r)
+		} else {
+			rep.Note("filter with same-name mocks: %v", err)
+		}
+	}
+	rep.Inc("same_name_across_kinds_listings")
 }
 
 func replayC14(rp map[string]interface{}) (string, error) {
